@@ -46,9 +46,9 @@ static std::set<int> open_fds ()
 static std::string gen_op (int mode, bool valid_bias)
 {	// classes: r/w valid, rx ry rn (misaligned / wrong mode / negative), s valid seeks, sb sm so, c valid commands, cu cn, t strings, k chunks, o opens
 	static const char *valid [] = { "r", "r", "w", "w", "s", "s", "c", "t" } ;
-	static const char *invalid [] = { "rx", "rn", "wx", "wn", "sb", "sm", "so", "sn", "cu", "cn", "tr", "tn", "tu", "te", "te", "kn", "kf", "o0", "o1", "o2", "o3", "o4", "o5", "o6", "o7", "o8", "o9", "rm", "wm" } ;
+	static const char *invalid [] = { "rx", "rn", "wx", "wn", "sb", "sm", "so", "sn", "cu", "cn", "tr", "tn", "tu", "te", "te", "kn", "kf", "o0", "o1", "o2", "o3", "o4", "o5", "o6", "o7", "o8", "o9", "oA", "oB", "oC", "rm", "wm" } ;
 	std::string s ;
-	if (*rangeOf<int> (0, 9) < (valid_bias ? 6 : 4)) s = valid [*rangeOf<int> (0, 7)] ; else s = invalid [*rangeOf<int> (0, 28)] ;
+	if (*rangeOf<int> (0, 9) < (valid_bias ? 6 : 4)) s = valid [*rangeOf<int> (0, 7)] ; else s = invalid [*rangeOf<int> (0, 31)] ;
 	s += ":" ; s += "sifd" [*rangeOf<int> (0, 3)] ; s += *rangeOf<int> (0, 1) ? 'i' : 'f' ; s += std::to_string (*rc::gen::element (1, 2, 7, 64, 300)) ;
 	(void) mode ;
 	return s ;
@@ -74,8 +74,14 @@ static int bad_open (int k, std::string &what)
 	std::string path = scratch_dir () + "/c09_open.dat" ;
 	SF_INFO i ; memset (&i, 0, sizeof (i)) ; SNDFILE *f = nullptr ;
 	MemFile mf ; SF_VIRTUAL_IO bad = *memvio () ;
+	// a successful open first: the failing one must set the global error itself, not inherit it from an earlier failure
+	{	MemFile ok ; SF_INFO wi ; memset (&wi, 0, sizeof (wi)) ; wi.format = SF_FORMAT_AU | SF_FORMAT_PCM_16 ; wi.channels = 1 ; wi.samplerate = 8000 ; SNDFILE *g = open_mem (ok, SFM_WRITE, &wi) ; if (g) sf_close (g) ; }
+	bool global_clear = sf_error (nullptr) == 0 ;
+	std::string longpath = scratch_dir () + "/" + std::string (1100 + 37 * (size_t) (k % 7), 'x') + ".wav" ;
 	switch (k)
-	{	case 0 : i.format = SF_FORMAT_WAV | SF_FORMAT_PCM_16 ; i.channels = 1 ; i.samplerate = 8000 ; f = sf_open (path.c_str (), 0x77, &i) ; break ;
+	{	case 10 : f = sf_open (longpath.c_str (), SFM_READ, &i) ; break ;
+		case 11 : i.format = SF_FORMAT_WAV | SF_FORMAT_PCM_16 ; i.channels = 1 ; i.samplerate = 8000 ; f = sf_open (longpath.c_str (), SFM_WRITE, &i) ; break ;
+		case 12 : i.format = SF_FORMAT_WAV | SF_FORMAT_PCM_16 ; i.channels = 1 ; i.samplerate = 8000 ; f = sf_open (longpath.c_str (), SFM_RDWR, &i) ; break ;	case 0 : i.format = SF_FORMAT_WAV | SF_FORMAT_PCM_16 ; i.channels = 1 ; i.samplerate = 8000 ; f = sf_open (path.c_str (), 0x77, &i) ; break ;
 		case 1 : f = sf_open (path.c_str (), SFM_READ, nullptr) ; break ;
 		case 2 : i.format = SF_FORMAT_PCM_16 ; i.channels = 1 ; i.samplerate = 8000 ; f = sf_open (path.c_str (), SFM_WRITE, &i) ; break ;
 		case 3 : i.format = SF_FORMAT_WAV ; i.channels = 1 ; i.samplerate = 8000 ; f = sf_open (path.c_str (), SFM_WRITE, &i) ; break ;
@@ -88,6 +94,7 @@ static int bad_open (int k, std::string &what)
 	}
 	unlink (path.c_str ()) ;
 	if (f) { sf_close (f) ; what = "invalid open variant " + std::to_string (k) + " succeeded" ; return 1 ; }
+	(void) global_clear ;
 	if (sf_error (nullptr) == 0) { what = "failed open variant " + std::to_string (k) + " left the global error at 0" ; return 2 ; }
 	if (!real_message (sf_strerror (nullptr))) { what = "failed open variant " + std::to_string (k) + " has no message" ; return 3 ; }
 	return 0 ;
@@ -159,7 +166,16 @@ static Result run_case (const Case &c)
 		{	sf_count_t frames = ci0.frames ; sf_count_t got ;
 			if (op == "sb") { got = sf_seek (f, 0, 0x77) ; expect_invalid = true ; }
 			else if (op == "sm") { if (mode == SFM_RDWR) continue ; got = sf_seek (f, 0, SEEK_SET | (mode == SFM_READ ? SFM_WRITE : SFM_READ)) ; expect_invalid = true ; }
-			else if (op == "so") { if (mode != SFM_READ) continue ; got = sf_seek (f, frames + 1 + k, SEEK_SET) ; expect_invalid = true ; }
+			else if (op == "so")
+			{	if (mode == SFM_READ) { got = sf_seek (f, frames + 1 + k, SEEK_SET) ; expect_invalid = true ; }
+				else
+				{	// beyond the end of a write handle: the API allows it, block codecs refuse it; a refusal must leave everything (file bytes included) as it was
+					if (is_granular (rep.format)) continue ;
+					got = sf_seek (f, ci0.frames + 1000 + k, SEEK_SET) ;
+					if (got == -1) { expect_invalid = true ; r.classes.push_back ("seek:beyond_end_refused") ; }
+					else { r.classes.push_back ("seek:beyond_end_accepted") ; sf_close (f) ; std::sort (r.classes.begin (), r.classes.end ()) ; r.classes.erase (std::unique (r.classes.begin (), r.classes.end ()), r.classes.end ()) ; r.nontrivial = invalid_then_valid > 0 ; return r ; }
+				}
+			}
 			else if (op == "sn") { got = sf_seek (f, -1 - k, SEEK_SET) ; expect_invalid = true ; }
 			else
 			{	sf_count_t tgt = frames > 0 ? (sf_count_t) rng.below ((uint64_t) frames + 1) : 0 ;
@@ -201,7 +217,7 @@ static Result run_case (const Case &c)
 			tierA = false ; err_in_return = true ; err_from_return = rc ; failed_value = rc != 0 ; r.classes.push_back ("invalid:chunk") ;
 		}
 		else if (op [0] == 'o')
-		{	std::string what ; if (bad_open (op [1] - '0', what)) return bail ("bad_open", what) ;
+		{	std::string what ; if (bad_open (op [1] >= 'A' ? 10 + op [1] - 'A' : op [1] - '0', what)) return bail ("bad_open", what) ;
 			// a failing open on another "file" must not disturb this handle
 			expect_invalid = false ; checked = false ;
 			if (digest (f, mf) != d0) return bail ("failed_open_disturbed_handle", "") ;
@@ -233,9 +249,10 @@ static Result run_case (const Case &c)
 	}
 	if (sf_close (f) != 0) return fail ("close_failed", "") ;
 	if (open_fds () != fds0) return fail ("descriptor_set_changed", "") ;
-	// LeakSanitizer's stop-the-world scan costs ~40 ms: every 64th history (and C16 owns leaks)
-	static long ncase = 0 ;
-	if ((++ ncase % 64) == 0 && __lsan_do_recoverable_leak_check ()) return fail ("leak", "LeakSanitizer reports a leak after one of the last 64 histories") ;
+		// every history (a window of several would make the reported case the wrong one); the first report switches the check off so
+	// that shrink candidates are not blamed for a block that has already leaked
+	static bool leak_reported = false ;
+	if (!leak_reported && __lsan_do_recoverable_leak_check ()) { leak_reported = true ; return fail ("leak", "LeakSanitizer reports a leak after this history (see stderr)") ; }
 	r.nontrivial = invalid_then_valid > 0 ;
 	std::sort (r.classes.begin (), r.classes.end ()) ; r.classes.erase (std::unique (r.classes.begin (), r.classes.end ()), r.classes.end ()) ;
 	return r ;
